@@ -12,7 +12,9 @@ directory maps or `Route` are implemented.
 * `RuleNames R t p n` : the route rule for type `t` names instance `n` for parameter
   `p` (explicit name | registered constant | registered key function — plain or
   one that first routes re-entrantly for another type — on a session / key map
-  carrying a string under that key: the OUTER parameter's key).
+  carrying a string under that key: the OUTER parameter's key; the function's
+  default instance when the key is absent — an EMPTY key map included; the
+  nil-branch name of a nil-aware function on an untyped nil only).
 * `RuleFails` : the ways a rule yields no instance.
 -/
 namespace Cell2v.Route
@@ -46,8 +48,11 @@ inductive RuleNames (R : Rules) (t : String) : Param → String → Prop
   | explicit (s : String) : RuleNames R t (.str s) s
   | const {p : Param} {fp : FParam} {n : String} :
       R.lookup t = some (.const n) → p.viaFunc = some fp → RuleNames R t p n
-  | key {p : Param} {l : KVs} {b : Beh} {k n : String} :
-      R.lookup t = some b → b.keyOf = some k → p.kvs? = some l → getKey l k = some (.str n) → RuleNames R t p n
+  | key {p : Param} {l : KVs} {b : Beh} {k dflt n : String} :
+      R.lookup t = some b → b.keyOf = some (k, dflt) → p.kvs? = some l → getKey l k = some (.str n) → RuleNames R t p n
+  | keyDefault {p : Param} {l : KVs} {b : Beh} {k dflt : String} :
+      R.lookup t = some b → b.keyOf = some (k, dflt) → p.kvs? = some l → getKey l k = none → RuleNames R t p dflt
+  | nilName {nn k : String} : R.lookup t = some (.nilor nn k) → RuleNames R t .nil nn
 
 /-- the rule of type `t` yields no instance for parameter `p` (view `ms`) -/
 inductive RuleFails (R : Rules) (ms : List Member) (t : String) : Param → Prop
@@ -57,7 +62,7 @@ inductive RuleFails (R : Rules) (ms : List Member) (t : String) : Param → Prop
   | funcPanics {p : Param} {fp : FParam} {b : Beh} :
       R.lookup t = some b → p.viaFunc = some fp → applyBeh b fp = none → RuleFails R ms t p
   | keyAbsent {p : Param} {l : KVs} {b : Beh} {k : String} :
-      R.lookup t = some b → b.keyOf = some k → p.kvs? = some l → getKey l k = none → RuleFails R ms t p
+      R.lookup t = some b → b.keyOf = some (k, "") → p.kvs? = some l → getKey l k = none → RuleFails R ms t p
   | badParam : RuleFails R ms t .other
   | noWorkingInstance {p : Param} {fp : FParam} :
       R.lookup t = none → p.viaFunc = some fp → R.hasDefault = true →
